@@ -47,10 +47,10 @@ def cases(tier, seed):
 def check_equalised(ctx, to, X, sf, g, y, s, constraint, wit):
     p = np.asarray(to._pmf_predict(X, sensitive_features=sf))
     ctx.ev("fits_checked")
-    if not ctx.check(p.shape == (len(y), 2), "pmf_shape_wrong", got=list(p.shape), **wit):
+    if not ctx.check(p.shape == (len(y), 2), "pmf_shape_wrong", got=list(p.shape), wit=wit):
         return None
     p1 = p[:, 1]
-    ctx.check(bool(((p1 >= -1e-12) & (p1 <= 1 + 1e-12)).all()), "pmf_outside_unit_interval", min=float(p1.min()), max=float(p1.max()), **wit)
+    ctx.check(bool(((p1 >= -1e-12) & (p1 <= 1 + 1e-12)).all()), "pmf_outside_unit_interval", min=float(p1.min()), max=float(p1.max()), wit=wit)
     metrics = ["false_positive_rate", "true_positive_rate"] if constraint == "equalized_odds" else [RT.SIMPLE[constraint]]
     ya = np.asarray(y)
     for m in metrics:
@@ -61,7 +61,7 @@ def check_equalised(ctx, to, X, sf, g, y, s, constraint, wit):
         ctx.ev("group_metric_comparisons")
         spread = max(vals.values()) - min(vals.values())
         ctx.check(spread <= 1e-9, "constrained_metric_not_equal_across_groups:" + m, per_group=vals, spread=spread,
-                  interpolation={repr(k): {kk: repr(vv) for kk, vv in v.items()} for k, v in to.interpolated_thresholder_.interpolation_dict.items()}, **wit)
+                  interpolation={repr(k): {kk: repr(vv) for kk, vv in v.items()} for k, v in to.interpolated_thresholder_.interpolation_dict.items()}, wit=wit)
     return p1
 
 
